@@ -134,6 +134,38 @@ def decision(name, test):
     return [DecisionOn(name, test, True), DecisionOn(name, test, False)]
 
 
+def independent_of(chk, W, rule, contract, vp, label, name, test, effect, detail_ok, detail_fail, extra=()):
+    """Obligation: the effect selected by `effect(A)` is not control-dependent on the decisions whose predicate satisfies `test`:
+    it stays reachable whichever way those decisions go (assume them all true, then all false).  Skipped when no such decision exists."""
+    seen = {}
+    hit = False
+    for truth in (True, False):
+        cut = DecisionOn(name, test, truth)      # removes the edge taken when the decision is `truth`
+        pol = CutPolicy([cut] + list(extra))
+        A = W.run(contract, "execute", vp, pol)
+        hit = hit or cut.name in pol.hits
+        seen[not truth] = len(effect(A))
+    inst = "%s/%s [%s]" % (contract, "/".join(vp or ()), label)
+    if not hit:
+        chk.skip(rule, inst, "no decision of this kind found")
+        return
+    chk.expect(all(n > 0 for n in seen.values()), rule, inst, detail_ok,
+               "%s (reachable when the decisions hold: %d site(s); when they do not: %d site(s))" % (detail_fail, seen[True], seen[False]), "")
+
+
+def zero_test(is_amount):
+    """comparison of a value satisfying is_amount with a zero constant, in any spelling"""
+    def zero(v):
+        o = all_origins(v)
+        return bool(o) and all(x.startswith("Const(") for x in o)
+
+    def test(pn, pa):
+        if pn in ("is_zero",) and pa:
+            return is_amount(pa[0])
+        return pn in ("gt", "lt", "ge", "le", "eq", "ne") and len(pa) > 1 and ((is_amount(pa[0]) and zero(pa[1])) or (is_amount(pa[1]) and zero(pa[0])))
+    return test
+
+
 def helper_candidates(A, test, contract_prefix):
     """first-party callees (any name) inside which a decision satisfying `test` is taken: their `?` / bool result is a candidate guard"""
     out, seen = [], set()
@@ -357,8 +389,8 @@ def farm_expiry_epoch(chk, A, lab):
 
 def no_truncation(chk, A, elem_pat, lab, rule):
     """no truncating / filtering adaptor sits between a request's vector and the loop that processes it"""
-    bad = [e for e in A.calls(r"Iterator::(take|skip|step_by|take_while|skip_while|filter|filter_map|rev|nth)$")
-           if any(re.search(elem_pat, o) for o in all_origins(vfield(A.d(e.extra["dargs"][0]), "[*]")))]
+    bad = [e for e in A.calls(r"Iterator::(take|skip|step_by|take_while|skip_while|filter|filter_map|rev|nth)$|::(chunks|chunks_exact|rchunks|array_chunks)$")
+           if any(re.search(elem_pat, o) for o in all_origins(vfield(A.d(e.extra["dargs"][0]), "[*]")) | all_origins(A.d(e.extra["dargs"][0])))]
     chk.expect(not bad, rule, lab, "every element is processed, in order", "the processed sequence goes through `%s`" % (bad[0].name.rsplit("::", 1)[-1] if bad else ""),
                where(bad[0]) if bad else "")
 
